@@ -1,4 +1,5 @@
 import PynguinModel.Lemmas.TypesDist
+import PynguinModel.Lemmas.Generators
 /-!
 # C25 — Subtyping is a preorder consistent with the class hierarchy
 
@@ -287,5 +288,103 @@ example :
     dist gGen 30 (.inst 8 [.inst 1 []]) (.inst 7 [.inst 1 []]) = none ∧
     dist gGen 30 (.inst 3 [.inst 0 []]) (.inst 6 [.inst 1 []]) = some 1 ∧
     dist gGen 30 (.inst 6 [.inst 1 []]) (.inst 3 [.inst 1 []]) = none := by decide
+
+/-! ## 11. histories: queries interleaved with the construction of the hierarchy
+
+`TypeSystem.is_subclass / is_subtype / is_maybe_subtype / subtype_distance / get_subclasses / get_superclasses` are
+memoised (`functools.lru_cache`) and `add_subclass_edge` drops all memos.  The memo model is C26's
+(`Model/Generators.lean`: `Memo`, `ask`, `addSubclassEdge`, `run`; freshness invariant in `Lemmas/Generators.lean`);
+here the consequences for C25: "consistent with the class hierarchy" holds for every history, not only for type
+systems that are built completely before the first query. -/
+section History
+open PynguinModel.Generators
+
+/-- the `add_subclass_edge` calls of a history, in order -/
+def histEdges : List Op → List (Cls × Cls)
+  | [] => []
+  | .edge a b :: ops => (a, b) :: histEdges ops
+  | .ask _ :: ops => histEdges ops
+
+/-- the graph after a history: the start graph plus the history's edges in call order; classes and arities unchanged -/
+theorem finalGraph_edges : ∀ (ops : List Op) (g : Graph),
+    (finalGraph g ops).edges = g.edges ++ histEdges ops ∧ (finalGraph g ops).generics = g.generics ∧
+    (finalGraph g ops).nodes = g.nodes
+  | [], g => by simp [finalGraph, histEdges]
+  | .edge a b :: ops, g => by
+    obtain ⟨h1, h2, h3⟩ := finalGraph_edges ops (addEdge g a b)
+    simp only [finalGraph, histEdges]
+    rw [h1, h2, h3]
+    simp [addEdge]
+  | .ask _ :: ops, g => by
+    simpa [finalGraph, histEdges] using finalGraph_edges ops g
+
+/-- the answer served for `q` after the history `ops` on a type system that started with empty caches -/
+def served (anyD : Nat) (g : Graph) (ops : List Op) (q : Query) : Answer :=
+  (ask anyD (run anyD false ⟨g, []⟩ ops).1 q).2
+
+/-- After ANY history of memoised queries and `add_subclass_edge` calls (first edge of an isolated class, edges in any
+order, repeated edges, diamond completion, shortcut edges, …) every query — `is_subclass`, `is_subtype`,
+`is_maybe_subtype`, `subtype_distance`, `get_subclasses`, `get_superclasses` — is answered as on the FINAL graph:
+no answer memoised before an edge survives it. -/
+theorem history_answers_on_final_graph (anyD : Nat) (g : Graph) (ops : List Op) (q : Query) :
+    served anyD g ops q = eval (finalGraph g ops) anyD q := by
+  unfold served
+  rw [ask_answer anyD _ q (run_fresh anyD ops _ (fresh_empty anyD g)), run_graph]
+
+/-- … and every answer given DURING the history is the answer on the graph of that moment. -/
+theorem history_answers_at_each_moment (anyD : Nat) (g : Graph) (ops : List Op) :
+    (run anyD false ⟨g, []⟩ ops).2 = expected anyD g ops :=
+  run_answers anyD ops ⟨g, []⟩ (fresh_empty anyD g)
+
+/-- Consistency with the class hierarchy for interleaved construction: all classes registered without edges, then the
+`(base, class)` pairs of a class table added in ANY order (repetitions allowed) with arbitrary queries in between —
+the `is_subclass` answer served afterwards is Python's `issubclass`. -/
+theorem history_subclass_agrees_issubclass (anyD : Nat) (nodes : List Cls) (tbl : List (Cls × List Cls))
+    (gen : List (Cls × Nat)) (ops : List Op)
+    (h : ∀ e, e ∈ histEdges ops ↔ e ∈ (ofClassTable tbl gen).edges) (c d : Cls) :
+    served anyD ⟨nodes, [], gen⟩ ops (.subclass c d) = .b true ↔ PySubclass tbl c d := by
+  rw [history_answers_on_final_graph, ← subclass_agrees_issubclass tbl gen c d]
+  simp only [eval, Answer.b.injEq]
+  rw [isSubclass_iff, isSubclass_iff]
+  have he := (finalGraph_edges ops ⟨nodes, [], gen⟩).1
+  constructor
+  · exact Reach.mono (by intro e hm; rw [he] at hm; simpa using (h e).mp (by simpa using hm))
+  · exact Reach.mono (by intro e hm; rw [he]; simpa using (h e).mpr hm)
+
+/-- The clauses of the property hold for the answers SERVED after a history (the theorems above apply to the final
+graph): reflexive, `Any` on top, a defined distance implies may-be-subtype (argument-free side). -/
+theorem history_laws (anyD : Nat) (g : Graph) (ops : List Op) (T : Ty) (hT : T.wf (finalGraph g ops) = true) :
+    served anyD g ops (.sub T T) = .b true ∧ served anyD g ops (.maybe T T) = .b true ∧
+    served anyD g ops (.sub T .any) = .b true ∧
+    (∀ (S : Ty) (k : Nat), S.wf (finalGraph g ops) = true → (T.noArgs = true ∨ S.noArgs = true) →
+      served anyD g ops (.dist T S) = .d (some k) → served anyD g ops (.maybe S T) = .b true) := by
+  simp only [history_answers_on_final_graph, eval, Answer.b.injEq, Answer.d.injEq]
+  refine ⟨(sub_refl _ T hT).1, (sub_refl _ T hT).2, (sub_any_top _ T).1, ?_⟩
+  intro S k hS hn hd
+  exact dist_defined_imp_maybe_partial _ anyD T S k hT hS hn hd
+
+
+/-- `0 object, 1 A, 2 B(A), 3 C(B, A)`: every class is registered first; `A` is asked about before its FIRST edge,
+`subtype_distance(A, C)` before the shortcut edge `A → C`; the edge `object → A` is repeated. -/
+def hEx : List Op :=
+  [.ask (.subclass 1 0), .edge 0 1, .ask (.subclass 1 0), .edge 1 2, .edge 2 3,
+   .ask (.dist (.inst 1 []) (.inst 3 [])), .edge 1 3, .edge 0 1,
+   .ask (.dist (.inst 1 []) (.inst 3 [])), .ask (.sub (.inst 3 []) (.inst 0 []))]
+
+example : (∀ e, e ∈ histEdges hEx ↔ e ∈ (ofClassTable [(0, []), (1, [0]), (2, [1]), (3, [2, 1])] []).edges) ∧
+    (Ty.inst 3 []).wf (finalGraph ⟨[0, 1, 2, 3], [], []⟩ hEx) = true := by
+  refine ⟨?_, by decide⟩
+  intro e
+  simp [hEx, histEdges, ofClassTable]
+  grind
+
+/-- the repaired `add_subclass_edge` serves current answers along `hEx`; with caches that survive an edge (`stale`)
+the negative answer about `A` and the distance over the old path `A → B → C` keep being served. -/
+example :
+    (run 30 false ⟨⟨[0, 1, 2, 3], [], []⟩, []⟩ hEx).2 = [.b false, .b true, .d (some 2), .d (some 1), .b true] ∧
+    (run 30 true ⟨⟨[0, 1, 2, 3], [], []⟩, []⟩ hEx).2 = [.b false, .b false, .d (some 2), .d (some 2), .b true] ∧
+    served 30 ⟨[0, 1, 2, 3], [], []⟩ hEx (.subclass 3 0) = .b true := by decide
+
+end History
 
 end PynguinModel.Types
